@@ -774,7 +774,7 @@ Lemma I6_dropinner c k0 s pre s' :
   KI (MDropInner c :: k0) s -> Lin (MDropInner c :: k0) s ->
   handle (MDropInner c) s = (pre, s') -> I6 (MDropInner c :: k0) s -> I6 (pre ++ k0) s'.
 Proof.
-  intros [_ KM] LN E (DK & m & MM & JJ & PP). pose proof (Forall_inv KM) as CK. simpl in CK.
+  intros [_ KM] LN E (DK & m & MM & JJ & PP). pose proof (Forall_inv KM) as CK. simpl in CK. destruct CK as [CK _].
   pose proof (qmop_quiet_pre (MDropInner c) _ _ _ eq_refl E) as QP.
   simpl in E. inversion E; subst pre s'. clear E.
   split; [exact DK|].
